@@ -128,6 +128,13 @@ def judge(case, rec):
     dims = apparent_dims(sv, q)
     rec.event("shape=" + "x".join(case["shape"]))
     both_dates = all(d.var.get("flavour") == "cat_date" for d in dims)
+    if both_dates and any(
+            str(((case["transforms"].get(n) or {}).get("order") or {}).get("measure", ""))
+            .startswith("population") for n in ("rows_dimension", "columns_dimension")):
+        # sorting by a population estimate when both dimensions are categorical-date: the
+        # estimate itself is direction-dependent there (documented exclusion), so is the order
+        rec.event("both-date population sort skipped")
+        return
     sA, sB = observe.snapshot(A), observe.snapshot(B)
     if tuple(A.shape) != tuple(reversed(B.shape)):
         rec.violation("shape %r vs transposed run %r" % (A.shape, B.shape), "shape")
